@@ -127,6 +127,17 @@ CHECKS: dict[str, dict[str, str]] = {
         "technique": "TLA+ BIP39/Electrum/SLIP-0039 specifications; TLC-made shares replayed into the implementation; recorded sentences, seeds, recoveries and BIP85 entropy validated as traces",
         "design_ref": "DESIGN.md section 4 C13",
     },
+    "C14": {
+        "text": ("Descriptors are specified as abstract syntax trees whose scripts at an index are the BIP32 derivation of every key (modules BIP32/ECReal) assembled "
+                 "with the standard templates (sortedmulti ordering, tr() trees through module Taproot, combo) and whose addresses are module Address's; the BIP380 "
+                 "checksum is specified on 40-bit words. TLC recomputes, for every function and nesting x 8 key spellings (ranged, fixed and hardened steps, hardened "
+                 "wildcards through private keys, origins, raw and uncompressed keys) x indexes up to 2^31-1 x two networks, the scripts, addresses and revealed "
+                 "redeem/witness scripts the library derives; checksums; that an intact checksummed string parses and that every changed checksum character (and "
+                 "sampled body characters) is refused; round trips, multipath expansion, index_of/position_of on derived and foreign scripts; and the scripts and "
+                 "addresses of BIP32 key wallets, descriptor wallets with arbitrary branch labels and script-template wallets in three embeddings."),
+        "technique": "TLA+ descriptor specification (BIP32 derivation + script templates + BIP380 checksum) evaluated by TLC; recorded derivations, parses and positions validated as traces",
+        "design_ref": "DESIGN.md section 4 C14",
+    },
     "C16": {
         "text": ("BIP327 is specified generically in curve and hash; TLC runs a whole session (nonce round, signing round, verification of every partial signature, "
                  "aggregation, adaptor completion and extraction) on a toy curve of 31 points for EVERY choice of private keys incl. duplicates, every sequence of up "
